@@ -11,16 +11,15 @@ open Scc
 /-! ## decidable conditions -/
 
 /-- conditions on one definition -/
-def defOk (d : Fun.Def) : Bool :=
-  good d.body && decide (d.ctx.map (·.var)).Nodup &&
+def defOk (p : Fun.CheckedProgram) (d : Fun.Def) : Bool :=
+  good p d.body && decide (d.ctx.map (·.var)).Nodup &&
   (fv d.body).all (fun x => (d.ctx.map (·.var)).contains x) &&
   !(d.ctx.map (·.var)).contains sig && !(binderNames d.body).contains sig
 
-/-- conditions on the source program: no codata declarations, every definition is in the
-fragment (`good`), closed, with pairwise distinct parameters, no name `ς`; definition names are
+/-- conditions on the source program: every definition is in the fragment (`good`), closed, with pairwise distinct parameters, no name `ς`; definition names are
 pairwise distinct; the parameters of `main` are producers -/
 def progOk (p : Fun.CheckedProgram) : Bool :=
-  p.codataTypes.isEmpty && p.defs.all defOk && decide (p.defs.map (·.name)).Nodup &&
+  p.defs.all (defOk p) && decide (p.defs.map (·.name)).Nodup &&
   p.defs.all (fun d => d.name != "main" || d.ctx.all (fun b => b.chi == .prd))
 
 /-- condition on the translation: the body of every definition mentions only its parameters -/
@@ -66,15 +65,15 @@ theorem compileDefs_mem (cts : List Core.TypeDecl) : ∀ (defs : List Fun.Def) (
 
 /-! ## one definition -/
 
-theorem defOk_facts {d : Fun.Def} (h : defOk d = true) :
-    good d.body = true ∧ (d.ctx.map (·.var)).Nodup ∧ (∀ x ∈ fv d.body, x ∈ d.ctx.map (·.var)) ∧
+theorem defOk_facts {p : Fun.CheckedProgram} {d : Fun.Def} (h : defOk p d = true) :
+    good p d.body = true ∧ (d.ctx.map (·.var)).Nodup ∧ (∀ x ∈ fv d.body, x ∈ d.ctx.map (·.var)) ∧
     sig ∉ d.ctx.map (·.var) ∧ sig ∉ binderNames d.body := by
   simp only [defOk, Bool.and_eq_true, decide_eq_true_eq, List.all_eq_true, Bool.not_eq_true',
     List.contains_eq_mem, decide_eq_false_iff_not] at h
   obtain ⟨⟨⟨⟨h1, h2⟩, h3⟩, h4⟩, h5⟩ := h
   exact ⟨h1, h2, fun x hx => by simpa using h3 x hx, by simpa using h4, by simpa using h5⟩
 
-theorem initNames {d : Fun.Def} (h : defOk d = true) (cts : List Core.TypeDecl) (ul : List String) :
+theorem initNames {p : Fun.CheckedProgram} {d : Fun.Def} (h : defOk p d = true) (cts : List Core.TypeDecl) (ul : List String) :
     TermNames d.body ⟨usedBinders d.body (ctxVars d.ctx), cts, ul, d.name, []⟩ := by
   obtain ⟨_, _, hcl, hs1, hs2⟩ := defOk_facts h
   refine ⟨fun x hx => ?_, fun x hx => (mem_usedBinders _ _).2 (.inl hx), ?_⟩
@@ -95,12 +94,14 @@ theorem params_used {d : Fun.Def} (cts : List Core.TypeDecl) (ul : List String) 
   exact (mem_usedBinders _ _).2 (.inr ((mem_ctxVars _).2 ⟨b, hb, e⟩))
 
 /-- a definition other than `main` -/
-theorem compileDef_facts {q : Core.Prog} {d : Fun.Def} {cts : List Core.TypeDecl} {ul : List String}
-    {r : List Core.Def × List String} (h : compileDef d cts ul = .ok r) (hd : defOk d = true)
+theorem compileDef_facts {p : Fun.CheckedProgram} {q : Core.Prog} (hcod : CodOK p q) {d : Fun.Def}
+    {cts : List Core.TypeDecl} {ul : List String}
+    {r : List Core.Def × List String} (h : compileDef d cts ul = .ok r) (hd : defOk p d = true)
     (hcts : cts = q.codataTypes) (hmem : ∀ D ∈ r.1, D ∈ q.defs) :
     ∃ D a τ τ', D ∈ q.defs ∧ D.name = ⟨d.name, 0⟩ ∧
       D.ctx = compileContext d.ctx ++ [⟨⟨a, 0⟩, .cns, τ⟩] ∧
-      Compiled q 0 d.body (.var .cns ⟨a, 0⟩ τ') D.body ∧ a ∉ d.ctx.map (·.var) := by
+      Compiled q 0 d.body (.var .cns ⟨a, 0⟩ τ') D.body ∧
+      Core.isCodata q.codataTypes τ' = false ∧ a ∉ d.ctx.map (·.var) := by
   unfold compileDef at h
   simp only at h
   cases hty : getType d.body with
@@ -118,7 +119,7 @@ theorem compileDef_facts {q : Core.Prog} {d : Fun.Def} {cts : List Core.TypeDecl
       have hfs := fs_stepRel.freshCovar st0
       have hfr := compileWithCont_fresh hx
       refine ⟨⟨⟨d.name, 0⟩, compileContext d.ctx ++ [⟨⟨(freshCovar st0).1, 0⟩, .cns, compileTy d.retTy⟩], body⟩,
-        (freshCovar st0).1, compileTy d.retTy, compileTy t, hmem _ (by simp), rfl, rfl, ?_, ?_⟩
+        (freshCovar st0).1, compileTy d.retTy, compileTy t, hmem _ (by simp), rfl, rfl, ?_, ?_, ?_⟩
       · refine ⟨(freshCovar st0).2, st', hx, ⟨fun D hD => hmem D (by simp [hD]), ?_⟩,
           htn0.of_sub (fun _ h => h) (fun _ h => h) hfs, ?_⟩
         · rw [hfr.codata]
@@ -128,17 +129,23 @@ theorem compileDef_facts {q : Core.Prog} {d : Fun.Def} {cts : List Core.TypeDecl
           simp only [occTerm, List.mem_singleton] at hb
           subst hb
           exact .inr ⟨freshCovar_ne_sig st0, by rw [freshCovar_used]; exact List.mem_cons_self⟩
+      · have h1 := good_ncd p d.body (defOk_facts hd).1
+        rw [← getType_eq, hty] at h1
+        rw [hcod t]
+        simpa [ncdO] using h1
       · intro hmem'
         have hp : ∀ x ∈ d.ctx.map (·.var), x ∈ st0.usedVars := by
           rw [← hst0]; exact params_used cts ul
         exact freshCovar_not_mem st0 (hp _ hmem')
 
 /-- `main` -/
-theorem compileMain_facts {q : Core.Prog} {d : Fun.Def} {cts : List Core.TypeDecl} {ul : List String}
-    {r : List Core.Def × List String} (h : compileMain d cts ul = .ok r) (hd : defOk d = true)
+theorem compileMain_facts {p : Fun.CheckedProgram} {q : Core.Prog} (hcod : CodOK p q) {d : Fun.Def}
+    {cts : List Core.TypeDecl} {ul : List String}
+    {r : List Core.Def × List String} (h : compileMain d cts ul = .ok r) (hd : defOk p d = true)
     (hcts : cts = q.codataTypes) (hmem : ∀ D ∈ r.1, D ∈ q.defs) :
     ∃ D x0 τ, D ∈ q.defs ∧ D.name = ⟨d.name, 0⟩ ∧ D.ctx = compileContext d.ctx ∧
-      Compiled q 0 d.body (.mu .cns ⟨x0, 0⟩ τ (.exit (.var .prd ⟨x0, 0⟩ τ) τ)) D.body := by
+      Compiled q 0 d.body (.mu .cns ⟨x0, 0⟩ τ (.exit (.var .prd ⟨x0, 0⟩ τ) τ)) D.body ∧
+      Core.isCodata q.codataTypes τ = false := by
   unfold compileMain at h
   simp only at h
   cases hty : getType d.body with
@@ -157,7 +164,12 @@ theorem compileMain_facts {q : Core.Prog} {d : Fun.Def} {cts : List Core.TypeDec
       have hfs := fs_stepRel.freshVar st0
       have hfr := compileWithCont_fresh hx
       refine ⟨⟨⟨d.name, 0⟩, compileContext d.ctx, body⟩, (freshVar st0).1, compileTy t, hmem _ (by simp),
-        rfl, rfl, ?_⟩
+        rfl, rfl, ?_, ?_⟩
+      rotate_left
+      · have h1 := good_ncd p d.body (defOk_facts hd).1
+        rw [← getType_eq, hty] at h1
+        rw [hcod t]
+        simpa [ncdO] using h1
       refine ⟨(freshVar st0).2, st', hx, ⟨fun D hD => hmem D (by simp [hD]), ?_⟩,
         htn0.of_sub (fun _ h => h) (fun _ h => h) hfs, ?_⟩
       · rw [hfr.codata]
@@ -256,12 +268,12 @@ theorem find_unique {α : Type} {P : α → Bool} : ∀ {l : List α} {a : α}, 
 /-! ## the context -/
 
 theorem progOk_facts {p : Fun.CheckedProgram} (h : progOk p = true) :
-    p.codataTypes = [] ∧ (∀ d ∈ p.defs, defOk d = true) ∧ (p.defs.map (·.name)).Nodup ∧
+    (∀ d ∈ p.defs, defOk p d = true) ∧ (p.defs.map (·.name)).Nodup ∧
     (∀ d ∈ p.defs, d.name = "main" → ∀ b ∈ d.ctx, b.chi = .prd) := by
-  simp only [progOk, Bool.and_eq_true, List.isEmpty_iff, List.all_eq_true, decide_eq_true_eq,
+  simp only [progOk, Bool.and_eq_true, List.all_eq_true, decide_eq_true_eq,
     Bool.or_eq_true, bne_iff_ne, ne_eq] at h
-  obtain ⟨⟨⟨h1, h2⟩, h3⟩, h4⟩ := h
-  refine ⟨h1, h2, h3, fun d hd hm b hb => ?_⟩
+  obtain ⟨⟨h2, h3⟩, h4⟩ := h
+  refine ⟨h2, h3, fun d hd hm b hb => ?_⟩
   rcases h4 d hd with h' | h'
   · exact absurd hm h'
   · have := h' b hb
@@ -286,13 +298,71 @@ theorem compileProg_defs {p : Fun.CheckedProgram} {q : Core.Prog} (h : compilePr
     subst h
     exact ⟨rfl, hd⟩
 
+/-! ## codata types of the translation -/
+
+theorem ident_beq0 (a b : String) : ((⟨a, 0⟩ : Core.Ident) == ⟨b, 0⟩) = (a == b) := by
+  show (a == b && (0:Nat) == 0) = (a == b)
+  simp
+
+mutual
+  theorem tyName_eq : ∀ (τ : Fun.Ty) (fuel : Nat), Fun.tyDepth τ ≤ fuel → Fun.tyName fuel τ = printTy τ
+    | .i64, fuel, h => by
+      cases fuel with
+      | zero => simp [Fun.tyDepth] at h
+      | succ f => rfl
+    | .decl n .nil, fuel, h => by
+      cases fuel with
+      | zero => simp [Fun.tyDepth] at h
+      | succ f => simp [Fun.tyName, Fun.Tys.toList, printTy]
+    | .decl n (.cons t r), fuel, h => by
+      cases fuel with
+      | zero => simp [Fun.tyDepth] at h
+      | succ f =>
+        have h' : Fun.tyDepth.go (.cons t r) ≤ f := by simp [Fun.tyDepth] at h; omega
+        simp only [Fun.tyName, Fun.Tys.toList, printTy]
+        rw [← tysName_eq (.cons t r) f h' (by simp)]
+        simp [Fun.Tys.toList]
+  theorem tysName_eq : ∀ (ts : Fun.Tys) (fuel : Nat), Fun.tyDepth.go ts ≤ fuel → ts ≠ .nil →
+      ", ".intercalate (ts.toList.map (Fun.tyName fuel)) = printTys ts
+    | .nil, _, _, h => absurd rfl h
+    | .cons t .nil, fuel, h, _ => by
+      have ht : Fun.tyDepth t ≤ fuel := by
+        simp only [Fun.tyDepth.go] at h
+        exact Nat.le_trans (Nat.le_max_left _ _) h
+      simp [Fun.Tys.toList, printTys, tyName_eq t fuel ht]
+    | .cons t (.cons u r), fuel, h, _ => by
+      have ht : Fun.tyDepth t ≤ fuel := by
+        simp only [Fun.tyDepth.go] at h
+        exact Nat.le_trans (Nat.le_max_left _ _) h
+      have hr : Fun.tyDepth.go (.cons u r) ≤ fuel := by
+        simp only [Fun.tyDepth.go] at h ⊢
+        exact Nat.le_trans (Nat.le_max_right _ _) h
+      have ih := tysName_eq (.cons u r) fuel hr (by simp)
+      simp only [Fun.Tys.toList, List.map_cons, String.intercalate_cons_cons, printTys] at ih ⊢
+      rw [tyName_eq t fuel ht, ← ih]
+end
+
+/-- the Core program declares exactly the translated codata types -/
+theorem codOK_of_compileProg {p : Fun.CheckedProgram} {q : Core.Prog} (hc : compileProg p = .ok q) :
+    CodOK p q := by
+  obtain ⟨hqc, _⟩ := compileProg_defs hc
+  intro τ
+  cases τ with
+  | i64 => rfl
+  | decl n a =>
+    simp only [compileTy, Core.isCodata, Fun.isCodataTy, hqc, List.any_map]
+    rw [tyName_eq (.decl n a) _ (Nat.le_succ _)]
+    congr 1
+    funext d
+    simp [ident_beq0]
+
 theorem ctx_of_compileProg {p : Fun.CheckedProgram} {q : Core.Prog} (hc : compileProg p = .ok q)
     (hp : progOk p = true) (hq : coreClosed q = true) : Ctx p q := by
-  obtain ⟨hcod, hdefsok, hnd, _⟩ := progOk_facts hp
+  obtain ⟨hdefsok, hnd, _⟩ := progOk_facts hp
   obtain ⟨hqc, hdefs⟩ := compileProg_defs hc
-  have hqcod : q.codataTypes = [] := by rw [hqc, hcod]; rfl
+  have hcod := codOK_of_compileProg hc
   have hmem := compileDefs_mem q.codataTypes p.defs _ [] q.defs hdefs
-  refine ⟨hqcod, hcod, ?_, ?_, ?_⟩
+  refine ⟨hcod, ?_, ?_, ?_⟩
   · refine compileDefs_nodup _ _ _ _ _ hdefs ?_ (by simp) (fun d hd' => mem_usedLabels_init _ d hd')
     simp only [List.map_nil, List.nil_append]
     have : p.defs.map (fun d => ident0 d.name) = (p.defs.map (·.name)).map ident0 := by simp
@@ -306,8 +376,8 @@ theorem ctx_of_compileProg {p : Fun.CheckedProgram} {q : Core.Prog} (hc : compil
     obtain ⟨ul0, r, hr, hrm⟩ := hmem.2 d hdm
     have hnm : (d.name == "main") = false := by simp [hname, hfm]
     simp only [hnm, Bool.false_eq_true, if_false] at hr
-    obtain ⟨D, a, τ, τ', h1, h2, h3, h4, h5⟩ := compileDef_facts hr (hdefsok d hdm) rfl hrm
+    obtain ⟨D, a, τ, τ', h1, h2, h3, h4, h4', h5⟩ := compileDef_facts hcod hr (hdefsok d hdm) rfl hrm
     obtain ⟨g1, g2, g3, _, _⟩ := defOk_facts (hdefsok d hdm)
-    exact ⟨D, a, τ, τ', h1, by rw [h2, hname], h3, h4, g1, h5, g2, g3⟩
+    exact ⟨D, a, τ, τ', h1, by rw [h2, hname], h3, h4, h4', g1, h5, g2, g3⟩
 
 end Scc.Fun2Core.Sem
